@@ -43,7 +43,7 @@ def main():
     allchecks = "--all-checks" in args
     args = [a for a in args if not a.startswith("--")]
     sid = args[0]
-    d = os.path.join(ROOT, "seeded", sid)
+    d = os.path.join(ROOT, os.environ.get("SEED_DIR", "seeded"), sid)      # (SEED_DIR=neutral: behaviour-preserving changes)
     meta_path = os.path.join(d, "meta.json")
     meta = json.load(open(meta_path)) if os.path.exists(meta_path) else {}
     checks = args[1:] or (ALL if allchecks else [meta["property"]])
@@ -54,7 +54,7 @@ def main():
     env = dict(os.environ, VERIF_SEED=seed, VERIF_OUT=os.path.join(scratch, "out"))
     # the checks run from a private copy of /verif, so that editing /verif meanwhile cannot disturb them
     vcopy = os.path.join(scratch, "verif")
-    sh("rsync -a --exclude .git --exclude replays --exclude evidence --exclude seeded --exclude keep --exclude __pycache__ %s/ %s/" % (ROOT, vcopy))
+    sh("rsync -a --exclude .git --exclude replays --exclude evidence --exclude seeded --exclude neutral --exclude keep --exclude __pycache__ %s/ %s/" % (ROOT, vcopy))
     env["VERIF_COPY"] = vcopy
     try:
         if inplace:
@@ -69,14 +69,15 @@ def main():
                 return 2
             src = wt
             env["PYTHONPATH"] = os.path.join(wt, "src")
-        base_demo = sh("cd /tmp && /venv/bin/python %s" % demo, env=env).returncode
+        has_demo = os.path.exists(demo)
+        base_demo = sh("cd /tmp && /venv/bin/python %s" % demo, env=env).returncode if has_demo else None
         r = sh("git -C %s apply %s/patch.diff" % (src, d))
         if r.returncode:
             print("patch does not apply:", r.stderr)
             return 2
         try:
             tests = sh("cd %s && /venv/bin/python -m pytest -q -p no:cacheprovider tests 2>&1 | tail -1" % src, env=env).stdout.strip()
-            with_demo = sh("cd /tmp && /venv/bin/python %s" % demo, env=env).returncode
+            with_demo = sh("cd /tmp && /venv/bin/python %s" % demo, env=env).returncode if has_demo else None
             # the library under test really is the patched copy
             where = sh("cd /tmp && /venv/bin/python -c 'import sysloss,os;print(os.path.dirname(sysloss.__file__))'", env=env).stdout.strip()
             results = {}
